@@ -210,6 +210,8 @@ def prepare(tier: str, seed: int) -> None:
             tops = list(gen.ALL_BIN) if (sk[0] == "B" and nb >= 2) else [None]
             for top in tops:
                 n += 1
+                if k == 3 and (n + seed) % 2:
+                    continue        # thorough: every second 3-operator condition (C05 runs all of them through the parser)
                 r = (n + seed) % len(leaves)
                 li = itertools.cycle(leaves[r:] + leaves[:r])
                 sh, hs = gen.renumber(c05.to_shape(sk, li, fixed_top=top))
@@ -237,7 +239,8 @@ def main() -> int:
                "ODataLexer.STRING / GEOGRAPHY / ODATA_IDENTIFIER token actions (leaf lemmas)")
     prepare(run.tier, run.seed)
     quick = run.tier == "quick"
-    run.bounds = {"skeletons": "every binary/unary/in skeleton with <= 2 (quick) / <= 3 (thorough) operator nodes, operators symbolic",
+    run.bounds = {"skeletons": "every binary/unary/in skeleton with <= 2 operator nodes; thorough: also every second 3-operator condition "
+                               "(seeded); operators symbolic",
                   "explicit shapes": "all literal kinds incl. boundary spellings, singleton / nested lists, namespaces, paths to depth 3, "
                                      "calls with 0..4 arguments, 1..3 named parameters, lambdas incl. nested and without body, unary chains",
                   "unary x literal-first": "every skeleton with <= 2 operator nodes that contains a unary operator, leftmost leaf over "
@@ -260,8 +263,10 @@ def main() -> int:
         dom = 1
         for h in sh["holes"]:
             dom *= len(h[2]) if h[0] == "#" else 1
-        if quick and dom > 15:
-            continue        # quick: the two instantiations square the case split; the wide ones run in the thorough tier
+        if dom > 15 or (not quick and sh["family"] == "skeleton k=3"):
+            continue        # the two instantiations square the case split (a parse under the tracer costs ~0.3 s): operator
+            #                 domains up to 15 choices, i.e. at most 225 paths per condition; the 3-operator skeletons take part in the
+            #                 round-trip obligation only
         params, pre, names = gen.signature(sh["holes"])
         p2, pre2, n2 = gen.signature([(h[0], h[1] + len(sh["holes"])) + tuple(h[2:]) for h in sh["holes"]])
         items.append(Item(f"reuse{i}", params + ", " + p2, f"({pre}) and ({pre2})",
